@@ -66,7 +66,7 @@ from ..docstrings import (
 )
 from ..iodata import IOData
 from ..periodic import num2sym, sym2num
-from ..utils import LineIterator, angstrom
+from ..utils import LineIterator, LoadError, angstrom
 
 __all__ = ()
 
@@ -155,17 +155,22 @@ def load_many(lit: LineIterator, atom_columns=None) -> Iterator[dict]:
     """Do not edit this docstring. It will be overwritten."""
     # XYZ Trajectory files are a simple concatenation of individual XYZ files,'
     # making it trivial to load many frames.
-    try:
-        while True:
-            # Skip empty lines. They normally only occur at the end of the file, but stopping at
-            # the first one would silently drop any frames after it.
+    while True:
+        # Skip empty lines. They normally only occur at the end of the file, but stopping at
+        # the first one would silently drop any frames after it.
+        try:
             line = next(lit)
-            if line.strip() == "":
-                continue
-            lit.back(line)
-            yield load_one(lit, atom_columns)
-    except StopIteration:
-        return
+        except StopIteration:
+            return
+        if line.strip() == "":
+            continue
+        lit.back(line)
+        # The end of the file inside a frame is an error, not the end of the trajectory.
+        try:
+            frame = load_one(lit, atom_columns)
+        except StopIteration as exc:
+            raise LoadError("The file ends in the middle of a frame.", lit) from exc
+        yield frame
 
 
 @document_dump_one("XYZ", ["atcoords", "atnums"], ["title"], {"atom_columns": ATOM_COLUMNS_DOC})
